@@ -222,4 +222,16 @@ def loadCtx (fresh : Bool) (timeout cool : Nat) : Nat → List GetTry → Option
     if used + g.dur ≤ timeout then some g.kvs
     else loadCtx fresh timeout cool (elapsed + min g.dur (timeout - used) + cool) rest
 
+
+/-! ### a subscriber is closed while a response is being delivered (handleWatchEvents / handleChanges take
+`listeners := append([]UpdateListener(nil), watcher.listeners...)`; Unmonitor shifts `watcher.listeners` in place) -/
+
+/-- the listeners called for ONE event when, during the call of the listener in cell `j`, the listener in cell `i` is
+unmonitored.  `copy = true` (the code): the loop ranges over a snapshot taken at the start of the response, the removal
+does not touch it.  `copy = false`: the loop ranges over the watcher's own array with its old length; the removal shifts
+the cells after `i` one to the left (the last cell keeps its old content), the loop goes on at cell `j + 1`. -/
+def calledForEvent (copy : Bool) (ls : List Nat) (j i : Nat) : List Nat :=
+  if copy then ls
+  else ls.take (j + 1) ++ ((ls.eraseIdx i ++ ls.drop (ls.length - 1)).drop (j + 1)).take (ls.length - (j + 1))
+
 end GoZero.C13
